@@ -72,7 +72,15 @@ def _inverse_and_unitary_case(ctx: vf.Ctx, rng, t):
         rads = tuple(rng.choice([2, 2, 3]) for _ in range(n))
         c = cc.Circuit(n, list(rads))
         for _ in range(rng.randint(1, 8)):
-            c.append(cc.op_from_snap(cc.rand_op(rng, n, rads)))
+            if rng.random() < 0.3:
+                # a (possibly nested) CircuitGate with its own distinct parameters: inverse, fold/unfold and
+                # renumbering must treat blocks like any other operation
+                k = rng.randint(1, min(n, 3))
+                loc = sorted(rng.sample(range(n), k))
+                sub = cc.rand_sub(rng, tuple(rads[q] for q in loc), 0 if rng.random() < 0.5 else 1, 4)
+                c.append_circuit(cc.circ_from_snap(sub), loc, True)
+            else:
+                c.append(cc.op_from_snap(cc.rand_op(rng, n, rads)))
         # parameters must be real angles: the integer tags are fine
         U = c.get_unitary()
         ctx.case(('unitary', t, cc.snap(c)))
